@@ -96,6 +96,7 @@ def refused_growth_histories():
 
 class C12(HistProp):
     id = 'C12'
+    also_release = True
     module = 'Cbor.Lemmas.SeqRefine'      # imports Cbor.Props.C12 (per-operation theorems) and adds the theorems about arbitrary operation sequences
     theorems = ['Props.C12.push_definite', 'Props.C12.push_indefinite', 'Props.C12.get_spec', 'Props.C12.get_out_of_range', 'Props.C12.replace_out_of_range',
                 'Props.C12.set_spec', 'Props.C12.map_add_definite', 'Props.C12.map_add_indefinite', 'Props.C12.add_chunk_spec',
